@@ -46,7 +46,7 @@ def _decl_expr(d):
     return "[" + ", ".join(f"{k} |-> {tlc.tla_expr(v)}" for k, v in d.items()) + "]"
 
 
-def line_texts(lines, names=None):
+def line_texts(lines, names=None, ws=False):
     """abstract lines -> concrete text lines.  An option line is ':k: v' unless it lies inside
     a --- block (first line '---', up to the next '---'), where it is 'k: v'."""
     names = names or {"a": "a", "b": "b", "f": "f", "u": "u"}
@@ -60,7 +60,8 @@ def line_texts(lines, names=None):
             if n > 0:
                 in_yaml = False
         elif k == "b":
-            out.append("")
+            # (a blank line may consist of white space)
+            out.append(("  " if n % 2 == 0 else " \t") if ws else "")
         elif k == "t":
             out.append(f"T{n + 1}")
         elif k == "i":
@@ -102,12 +103,15 @@ def observe(cls, first_text, texts, addl, trail=True, roles=None):
     from myst_parser.parsers.directives import parse_directive_text
     from myst_parser.warnings_ import MystWarnings
     content = "\n".join(texts) + ("\n" if texts and trail else "")
+    given = dict(addl) if addl else None
     try:
-        r = parse_directive_text(cls, first_text, content, additional_options=dict(addl) if addl else None)
+        r = parse_directive_text(cls, first_text, content, additional_options=given)
     except MarkupError:
         return {"st": "markup"}, content
     except Exception as e:  # noqa: BLE001
         return {"st": f"raised {type(e).__name__}: {e}"}, content
+    if given is not None and list(given.items()) != [tuple(x) for x in addl]:
+        return {"st": f"the caller's additional_options mapping was modified: {given}"}, content
     body = list(r.body)
     merged = bool(first_text.strip()) and bool(body) and body[0] == first_text
     tail = body[1:] if merged else body
@@ -130,6 +134,10 @@ def observe(cls, first_text, texts, addl, trail=True, roles=None):
         opts.append([role, pv])
     w_opt = sum(1 for w in r.warnings if w.type == MystWarnings.DIRECTIVE_OPTION)
     w_parse = sum(1 for w in r.warnings if w.type == MystWarnings.DIRECTIVE_PARSING)
+    # the advisory "Splitting content across first line and body" counts white-space-only lines as content (any(body_lines));
+    # the property says nothing about this advice, so for blank lines written as white space it is not compared
+    if merged and tail and not any(t.strip() for t in tail) and any(tail):
+        w_parse -= sum(1 for w in r.warnings if w.type == MystWarnings.DIRECTIVE_PARSING and "Splitting content" in w.msg)
     other = [w.type.value for w in r.warnings if w.type not in (MystWarnings.DIRECTIVE_OPTION, MystWarnings.DIRECTIVE_PARSING)]
     # the arguments are the words of the first line; with final_argument_whitespace the last one is the REST of the line
     # as written (docutils: split(None, n - 1)), inner white space included
@@ -144,7 +152,7 @@ def _replay_one(rec):
     decl = rec["decl"]
     # every third behaviour with an option_spec that resolves its keys dynamically
     cls = make_class(decl, dynamic=(len(rec["lines"]) + rec["first"] + len(rec["addl"])) % 3 == 0)
-    texts = line_texts(rec["lines"])
+    texts = line_texts(rec["lines"], ws=(len(rec["lines"]) + rec["first"] + 2 * len(rec["addl"])) % 4 == 1)
     obs, content = observe(cls, FIRST_TEXT[rec["first"]], texts, rec["addl"])
     return obs, content
 
